@@ -35,9 +35,9 @@ StepKeys(r, i) ==
                   ELSE {})
 
 \* model-side validation of the reference histories supplied with the case, and exactness
-RefsValid(r) == \A k \in DOMAIN r.refs : ApplyAll(NewSelect, r.refs[k].calls, 1) = RegsAfter(r.calls, r.refs[k].step).m1
+RefsValid(r) == \A k \in DOMAIN r.refs : ApplyAll(NewOf(r.kind), r.refs[k].calls, 1) = RegsAfterK(r.kind, r.calls, r.refs[k].step).m1
 Exact(r) == \A i \in DOMAIN r.steps : \A B \in Backends :
-   LET R == RegsAfter(r.calls, i) IN
+   LET R == RegsAfterK(r.kind, r.calls, i) IN
    (IsPanic(r.steps[i].r1[B]) \/ r.steps[i].r1[B].r = RStmt(B, NoOpt, R.m1)) /\ (IsPanic(r.steps[i].r2[B]) \/ r.steps[i].r2[B].r = RStmt(B, NoOpt, R.m2))
 
 Verdict(r) ==
